@@ -316,6 +316,22 @@ class ParserScenario:
         st.heap[loc][('f', None, LOC.index('input'))] = named(st, 'locname', 'Option<String>')
         st.heap[ro][('f', None, RDR.index('location'))] = ObjV(loc)
         info.update(line0=line0, col0=col0, ro=ro, loc=loc, rref=rref, by=by)
+        if not arbitrary:
+            # fields the scenario does not know (added by an edit) get the value Reader::new gives them
+            known = {RDR.index(x) for x in ('bytes', 'current_byte', 'location', 'eof')}
+            if len(RDR) > len(known):
+                try:
+                    F = ex.find(r'^reader::<impl at [^>]*>::new$')
+                    s0 = State(); ex.new_frame(s0, F, [named(s0, 'R', 'R'), named(s0, 'NAME', 'Option<String>')])
+                    done = [d for d in ex.run(s0) if d.status == 'returned']
+                    if len(done) == 1:
+                        r = obj(done[0], done[0].ret)
+                        for i in range(len(RDR)):
+                            v = done[0].heap[r.oid].get(('f', None, i))
+                            if i not in known and isinstance(v, (BV, BoolV)) and cval(v.t) is not None:
+                                st.heap[ro][('f', None, i)] = v
+                except Exception:
+                    pass
         return st, info
 
     # -- denotation of the implementation's value
